@@ -26,6 +26,8 @@ type zzC08World struct {
 	height   int32
 	names    int
 	accounts []uint32
+	acct     uint32           // the account the operations work on
+	dropped  []ManagedAddress // addresses handed out inside transactions that did not commit
 }
 
 func (w *zzC08World) sm() *ScopedKeyManager {
@@ -75,24 +77,28 @@ func (w *zzC08World) step() {
 		var mas []ManagedAddress
 		if w.tx("NextExternalAddresses", func(ns walletdb.ReadWriteBucket) error {
 			var err error
-			mas, err = sm.NextExternalAddresses(ns, 0, 1)
+			mas, err = sm.NextExternalAddresses(ns, w.acct, 1)
 			return err
 		}) {
 			w.issued = append(w.issued, mas...)
+		} else {
+			w.dropped = append(w.dropped, mas...)
 		}
 	case 1:
 		var mas []ManagedAddress
 		if w.tx("NextInternalAddresses", func(ns walletdb.ReadWriteBucket) error {
 			var err error
-			mas, err = sm.NextInternalAddresses(ns, 0, 1)
+			mas, err = sm.NextInternalAddresses(ns, w.acct, 1)
 			return err
 		}) {
 			w.issued = append(w.issued, mas...)
+		} else {
+			w.dropped = append(w.dropped, mas...)
 		}
 	case 2:
 		w.names++
 		name := []string{"alice", "bob", "carol", "dave"}[w.names%4]
-		w.tx("RenameAccount", func(ns walletdb.ReadWriteBucket) error { return sm.RenameAccount(ns, 0, name) })
+		w.tx("RenameAccount", func(ns walletdb.ReadWriteBucket) error { return sm.RenameAccount(ns, w.acct, name) })
 	case 3:
 		if len(w.issued) == 0 {
 			verifrt.Assume(false)
@@ -122,12 +128,12 @@ func (w *zzC08World) step() {
 	case 6:
 		var last uint32
 		zzMust(w.view(func(ns walletdb.ReadBucket) error {
-			p, err := sm.AccountProperties(ns, 0)
+			p, err := sm.AccountProperties(ns, w.acct)
 			zzMust(err)
 			last = p.ExternalKeyCount + 1
 			return nil
 		}))
-		w.tx("ExtendExternalAddresses", func(ns walletdb.ReadWriteBucket) error { return sm.ExtendExternalAddresses(ns, 0, last) })
+		w.tx("ExtendExternalAddresses", func(ns walletdb.ReadWriteBucket) error { return sm.ExtendExternalAddresses(ns, w.acct, last) })
 	}
 }
 
@@ -206,14 +212,55 @@ func (w *zzC08World) compare() bool {
 			_, fpth, _ := fa.(ManagedPubKeyAddress).DerivationInfo()
 			eq(rpth == fpth, "issued-address-path")
 		}
+		// an address handed out inside a transaction that did not commit was
+		// never issued: both managers must say the same about it
+		for _, da := range w.dropped {
+			known := false
+			for _, ia := range w.issued {
+				if ia.Address().String() == da.Address().String() {
+					known = true // re-issued later by a committed request
+				}
+			}
+			if known {
+				continue
+			}
+			_, rerr := w.mgr.Address(ns, da.Address())
+			_, ferr := fresh.Address(ns, da.Address())
+			eq((rerr == nil) == (ferr == nil), "never-issued-address-known")
+		}
 		return nil
 	}))
 	verifrt.Observe("query", "")
 	return ok
 }
 
-func zzC08(steps int) {
+func zzC08(steps int) { zzC08On(steps, false) }
+
+func zzC08On(steps int, imported bool) {
 	w := &zzC08World{zzMgrWorld: zzNewMgrWorld(zzSeedA), scope: KeyScopeBIP0084, prefix: "c08-"}
+	if imported {
+		// the operations work on an imported extended-public-key account
+		// that already has two external and one internal address
+		acctKey, err := zzImportedAccountKey(w.root)
+		zzMust(err)
+		zzMust(w.update(func(ns walletdb.ReadWriteBucket) error {
+			acct, err := w.sm().NewAccountWatchingOnly(ns, "somebody", acctKey, 0x11223344, nil)
+			if err != nil {
+				return err
+			}
+			w.acct = acct
+			mas, err := w.sm().NextExternalAddresses(ns, acct, 2)
+			if err != nil {
+				return err
+			}
+			w.issued = append(w.issued, mas...)
+			mas, err = w.sm().NextInternalAddresses(ns, acct, 1)
+			w.issued = append(w.issued, mas...)
+			return err
+		}))
+		w.accounts = append(w.accounts, w.acct)
+		verifrt.Reach("imported-account")
+	}
 	for s := 0; s < steps; s++ {
 		w.step()
 		if !w.compare() {
@@ -226,5 +273,7 @@ func zzC08(steps int) {
 func ZzC08L1() { zzC08(1) }
 func ZzC08L2() { zzC08(2) }
 func ZzC08L3() { zzC08(3) }
+func ZzC08ImportedL1() { zzC08On(1, true) }
+func ZzC08ImportedL2() { zzC08On(2, true) }
 
 var _ = chainhash.Hash{}
